@@ -385,6 +385,7 @@ func fetch(o *engine.Outcome, idx int, st *stored, client int, form int) {
 			o.Probe("rejections_ok")
 		}
 	}
+	o.Tag("(ciphertext state, key, outcome)", fmt.Sprintf("%s/%v/%v", st.damage, wrongKey, derr == nil))
 	o.FP.Step("fetch", idx, client, derr == nil, gotVal)
 }
 
